@@ -101,7 +101,7 @@ def defs_strict(restr, p):
            bounds={"quick": {}, "thorough": {}})
 def direction(sx, B):
     """Real is_restricted with symbolic normal, points and reference angle: an accepted step has a component along the normal of
-    the same sign as the reference angle, and its angle term does not exceed |reference|."""
+    the same sign as the reference angle, and the angle between step and normal (normals of any length) does not exceed |reference|."""
     n = vec(sx, "n", -3, 3)
     old = vec(sx, "old", 0, 5)
     step = vec(sx, "step", -1, 1)
@@ -116,6 +116,12 @@ def direction(sx, B):
         sx.cover("accepted")
         sx.claim(sym_or(sym_and(dot > 0, ref > 0), sym_and(dot < 0, ref < 0)),
                  "accepted step points to the side of the plane the reference angle names")
+        # the angle between normal and step (normal of any length: the build file does not ask for unit normals), stated
+        # independently: degrees(arccos(n.step / (|n| |step|))), arccos and degrees being the same uninterpreted monotone functions
+        ln = np.sqrt(sq(n[0]) + sq(n[1]) + sq(n[2]))
+        ls = np.sqrt(sq(step[0]) + sq(step[1]) + sq(step[2]))
+        angle = np.degrees(np.arccos(dot / (ln * ls)))
+        sx.claim(angle <= abs(ref), "the angle between an accepted step and the normal does not exceed the reference angle")
     else:
         sx.cover("rejected")
     sx.claim(rw.is_restricted(new, old, {}) is True, "no restriction declared: accepted")
@@ -306,7 +312,7 @@ def bounds(sx, B):
 @condition("C07.cycles",
            anchors=["polyply.src.gen_coords:_initialize_cylces", "polyply.src.meta_molecule:MetaMolecule.search_tree",
                     "polyply.src.restraints:set_restraints"],
-           rejects=(), selector_only=True, replay=True, must_cover=["ring", "two cycles rejected", "with build-file restraint"],
+           rejects=(), selector_only=True, replay=True, must_cover=["ring", "two cycles rejected", "with build-file restraint", "walk starts elsewhere"],
            outside=["rings larger than the bound", "molecules with rings plus tails (the statement speaks of ring-shaped molecules)"],
            bounds={"quick": dict(nmax=7), "thorough": dict(nmax=12)},
            budget={"quick": 200, "thorough": 1200})
@@ -343,7 +349,19 @@ def cycles(sx, B):
             return
         sx.claim(False, "a molecule with more than one cycle is rejected")
         return
-    pre = sx.sel("build_file_restraint", [False, True])
+    start = sx.sel("start", ["default", "-start at another residue", "coordinates supplied for some residues"])
+    if start == "-start at another residue":
+        # what find_starting_node_from_spec does for `-start ring#A-k` before the cycles are initialised
+        mol.root = key(int(sx.int("root", 0, n - 1)))
+        sx.cover("walk starts elsewhere")
+    elif start == "coordinates supplied for some residues":
+        # what the coordinate reader leaves behind: residues with coordinates lose their `build` flag and the walk starts at one
+        first = int(sx.int("first_with_coords", 0, n - 1))
+        for i in range(first, min(n, first + 2)):
+            del mol.nodes[key(i)]["build"]
+        sx.cover("walk starts elsewhere")
+    # (between two residues that are not neighbours in the ring, so that it cannot coincide with the closing pair)
+    pre = sx.sel("build_file_restraint", [False, True]) and n >= 4
     if pre:
         # as the build file parser stores it before the cycles are initialised
         top.distance_restraints[("ring", 0)][(key(0), key(n // 2))] = (0.8, 0.1)
@@ -362,6 +380,9 @@ def cycles(sx, B):
     sx.claim(mol.has_edge(u, v), "the restrained pair is joined by an edge of the ring (the closing edge)",
              lambda: "ring of %d (keys %s, inserted %r): restraint between %r and %r" % (n, keyf, order, u, v))
     sx.claim(d == 0.0 and t == tol, "distance 0 and the given tolerance")
+    walk = [list(mol.search_tree.edges)[0][0]] + [e[1] for e in mol.search_tree.edges]
+    sx.claim({u, v} == {walk[0], walk[-1]}, "the restrained pair is the first and the last residue of the walk that is actually performed",
+             lambda: "walk %r, restraint between %r and %r" % (walk, u, v))
     eng = _engine_for(sx, mol, {"A": 0.5})
     if pre:
         top.distance_restraints[("ring", 0)].pop((key(0), key(n // 2)), None)
